@@ -29,7 +29,7 @@ ASSUMPTIONS = [
 ]
 
 EXTRA = ["1 Minn. L. Rev. ___. Id. at 5.", "42 U.S.C. § 1983", "\ud800 1 U.S. 1", "1 U.S. 1 \udfff", "\x00", "((((", "))))",
-         "1" * 2000 + " U.S. 1", "§" * 50, "Id. " * 40, "supra " * 30, "v. " * 30, "1 U.S. ____ (", "(1999) 1 U.S. 1",
+         "1" * 2000 + " U.S. 1", "1 U.S. " + "9" * 5000 + ". Id. at 5.", "1 U.S. 5. Id. at " + "9" * 5000 + ".", "1 U.S. ² Id. at 5.", "§" * 50, "Id. " * 40, "supra " * 30, "v. " * 30, "1 U.S. ____ (", "(1999) 1 U.S. 1",
          "Foo v. Bar, 1 U.S. 1 (" + "(" * 50, "١ U.S. ١", "1 U.S. ²", "２ F.３d ４", "Id. at ²", "1 U.S. 1. Id. at ١٢",
          "\n\n\n", "a b 1 U.S. 1", "<i>1 U.S. 1</i>", "1 U.S. 1 </i>", "&amp; 1 U.S. 1 &", "eyecite"]
 
